@@ -22,17 +22,17 @@ type Ctx struct {
 	Explode  int // >= 0: expand this (table) case into individual cases
 	ShardMax int // max bytes of terms per shard file
 
-	cases     []string
-	descs     []json.RawMessage
-	hashes    map[[32]byte]bool
-	nontriv   int
-	Hist      map[string]int
-	Rule      string
-	Samples   []interface{}
-	Extra     map[string]interface{}
-	Imports   string // Coq Require line(s) for the case file
-	CaseType  string
-	Classify  string
+	cases    []string
+	descs    []json.RawMessage
+	hashes   map[[32]byte]bool
+	nontriv  int
+	Hist     map[string]int
+	Rule     string
+	Samples  []interface{}
+	Extra    map[string]interface{}
+	Imports  string // Coq Require line(s) for the case file
+	CaseType string
+	Classify string
 }
 
 func NewCtx(prop string) *Ctx {
